@@ -1649,7 +1649,7 @@ class zip(Stream):
         self._retain_refs(metadata)
         L = self.buffers[who]  # get buffer for stream
         L.append((x, metadata))
-        if len(L) == 1 and all(self.buffers.values()):
+        if all(self.buffers.values()):
             vals = [self.buffers[up][0] for up in self.upstreams]
             tup, md = __builtins__['zip'](*vals)
             for buf in self.buffers.values():
